@@ -411,4 +411,141 @@ theorem scan_perm (ix : Index) (rows : Rows) (lo hi : List Bound) (hc : IndexCon
     simp only [List.mem_filter] at hr
     exact fetch_of_mem rows hd r hr.1
 
+/-! ### INSERT and DELETE of one transaction on stamped entries -/
+
+theorem mem_tPairs_cons (committed : List Nat) (self : Nat) (x : TEntry) (xs : List TEntry) (p : List Value × Nat) :
+    p ∈ tPairs committed self (x :: xs)
+      ↔ (x.visible committed self = true ∧ p = (x.key, x.rid)) ∨ p ∈ tPairs committed self xs := by
+  simp only [tPairs, List.filter_cons]
+  cases hv : x.visible committed self <;> simp
+
+theorem tPairs_key_mem (committed : List Nat) (self : Nat) (es : List TEntry) (p : List Value × Nat)
+    (h : p ∈ tPairs committed self es) : p.1 ∈ es.map (·.key) := by
+  simp only [tPairs, List.mem_map, List.mem_filter] at h ⊢
+  obtain ⟨e, ⟨he, _⟩, rfl⟩ := h
+  exact ⟨e, he, rfl⟩
+
+theorem seen_self (committed : List Nat) (self : Nat) : seen committed self self = true := by
+  simp [seen]
+
+theorem visible_new (committed : List Nat) (tid : Nat) (k : List Value) (rid : Nat) :
+    TEntry.visible committed tid { key := k, rid := rid, xmin := tid } = true := by
+  simp [TEntry.visible, seen_self]
+
+theorem tDelete_head (committed : List Nat) (tid : Nat) (x : TEntry) (xs : List TEntry)
+    (hv : x.visible committed tid = true) :
+    tDelete committed tid x.key (x :: xs) = { x with xmax := some tid } :: xs := by
+  simp [tDelete, hv]
+
+theorem tInsert_head_marked (committed aborted : List Nat) (tid : Nat) (x : TEntry) (xs : List TEntry) (rid d : Nat)
+    (hx : x.xmax = some d) :
+    tInsert {} committed aborted tid x.key rid (x :: xs) = { key := x.key, rid := rid, xmin := tid } :: xs := by
+  simp [tInsert, hx]
+
+theorem tInsert_head_aborted (committed aborted : List Nat) (tid : Nat) (x : TEntry) (xs : List TEntry) (rid : Nat)
+    (hx : aborted.contains x.xmin = true) :
+    tInsert {} committed aborted tid x.key rid (x :: xs) = { key := x.key, rid := rid, xmin := tid } :: xs := by
+  have hx' : x.xmin ∈ aborted := by simpa using hx
+  simp [tInsert, hx']
+
+theorem tInsert_tail (D : TxDefects) (committed aborted : List Nat) (tid : Nat) (k : List Value) (x : TEntry)
+    (xs : List TEntry) (rid : Nat) (hk : ¬ x.key = k) :
+    tInsert D committed aborted tid k rid (x :: xs) = x :: tInsert D committed aborted tid k rid xs := by
+  simp [tInsert, hk]
+
+theorem tDelete_tail (committed : List Nat) (tid : Nat) (k : List Value) (x : TEntry) (xs : List TEntry)
+    (hk : ¬ x.key = k) : tDelete committed tid k (x :: xs) = x :: tDelete committed tid k xs := by
+  simp [tDelete, hk]
+
+/-- DELETE of the row under key `k` followed, in the same transaction, by INSERT of a row with key `k`: afterwards the
+    transaction (and, once it has committed, everybody) sees exactly the new row under `k`, and every other key as before. -/
+theorem delete_then_insert_pairs (committed aborted : List Nat) (tid : Nat) (k : List Value) (rid rid' : Nat) :
+    ∀ (es : List TEntry), (es.map (·.key)).Nodup → (k, rid) ∈ tPairs committed tid es →
+      ∀ p, p ∈ tPairs committed tid (tInsert {} committed aborted tid k rid' (tDelete committed tid k es))
+        ↔ (p = (k, rid') ∨ (p ∈ tPairs committed tid es ∧ p.1 ≠ k))
+  | [], _, hm, _ => by simp [tPairs] at hm
+  | x :: xs, hn, hm, p => by
+    simp only [List.map_cons, List.nodup_cons] at hn
+    by_cases hk : x.key = k
+    · -- the entry of the key is the head; nothing else carries the key
+      subst hk
+      have hnot : ∀ q ∈ tPairs committed tid xs, q.1 ≠ x.key := by
+        intro q hq hqk
+        exact hn.1 (by rw [← hqk]; exact tPairs_key_mem _ _ _ _ hq)
+      have hvis : x.visible committed tid = true := by
+        rcases (mem_tPairs_cons _ _ _ _ _).mp hm with h | h
+        · exact h.1
+        · exact absurd rfl (hnot _ h)
+      rw [tDelete_head _ _ _ _ hvis]
+      have := tInsert_head_marked committed aborted tid { x with xmax := some tid } xs rid' tid rfl
+      simp only at this
+      rw [this, mem_tPairs_cons, mem_tPairs_cons]
+      simp only [visible_new, true_and, hvis]
+      constructor
+      · rintro (h | h)
+        · exact Or.inl h
+        · exact Or.inr ⟨Or.inr h, hnot p h⟩
+      · rintro (h | ⟨h | h, hne⟩)
+        · exact Or.inl h
+        · exact absurd (by rw [h]) hne
+        · exact Or.inr h
+    · have hm' : (k, rid) ∈ tPairs committed tid xs := by
+        rcases (mem_tPairs_cons _ _ _ _ _).mp hm with h | h
+        · simp only [Prod.mk.injEq] at h
+          exact absurd h.2.1.symm hk
+        · exact h
+      have ih := delete_then_insert_pairs committed aborted tid k rid rid' xs hn.2 hm' p
+      rw [tDelete_tail _ _ _ _ _ hk, tInsert_tail _ _ _ _ _ _ _ _ hk, mem_tPairs_cons, mem_tPairs_cons, ih]
+      constructor
+      · rintro (⟨hv, h⟩ | h | ⟨h, hne⟩)
+        · exact Or.inr ⟨Or.inl ⟨hv, h⟩, by rw [h]; exact hk⟩
+        · exact Or.inl h
+        · exact Or.inr ⟨Or.inr h, hne⟩
+      · rintro (h | ⟨h | h, hne⟩)
+        · exact Or.inr (Or.inl h)
+        · exact Or.inl h
+        · exact Or.inr (Or.inr ⟨h, hne⟩)
+
+/-- Whenever the key is free — no entry, an entry with a delete mark, or one left behind by a rolled-back INSERT — the
+    inserted row gets an entry the inserting transaction sees. -/
+theorem insert_gets_entry (committed aborted : List Nat) (tid : Nat) (k : List Value) (rid' : Nat) :
+    ∀ (es : List TEntry), (∀ e ∈ es, e.key = k → aborted.contains e.xmin = true ∨ e.xmax.isSome = true) →
+      (k, rid') ∈ tPairs committed tid (tInsert {} committed aborted tid k rid' es)
+  | [], _ => by simp [tInsert, tPairs, TEntry.visible, seen_self]
+  | x :: xs, h => by
+    by_cases hk : x.key = k
+    · subst hk
+      have hfree := h x (by simp) rfl
+      have hrepl : tInsert {} committed aborted tid x.key rid' (x :: xs)
+          = { key := x.key, rid := rid', xmin := tid } :: xs := by
+        rcases hfree with hf | hf
+        · exact tInsert_head_aborted _ _ _ _ _ _ hf
+        · cases hx : x.xmax with
+          | none => simp [hx] at hf
+          | some d => exact tInsert_head_marked _ _ _ _ _ _ d hx
+      rw [hrepl, mem_tPairs_cons]
+      exact Or.inl ⟨visible_new _ _ _ _, rfl⟩
+    · rw [tInsert_tail _ _ _ _ _ _ _ _ hk, mem_tPairs_cons]
+      exact Or.inr (insert_gets_entry committed aborted tid k rid' xs (fun e he => h e (by simp [he])))
+
+/-- the transaction's own view is the view of every later reader once the transaction has committed (a reader whose id
+    stamps no entry) -/
+theorem view_after_commit (committed : List Nat) (tid r : Nat) (es : List TEntry)
+    (hr : ∀ e ∈ es, e.xmin ≠ r ∧ e.xmax ≠ some r) : tPairs (tid :: committed) r es = tPairs committed tid es := by
+  simp only [tPairs]
+  congr 1
+  apply List.filter_congr
+  intro e he
+  obtain ⟨h1, h2⟩ := hr e he
+  have hs : ∀ t, t ≠ r → seen (tid :: committed) r t = seen committed tid t := by
+    intro t ht
+    have : (t == r) = false := by simpa using ht
+    simp only [seen, this, Bool.false_or, List.contains_cons]
+  simp only [TEntry.visible, hs e.xmin h1]
+  cases hx : e.xmax with
+  | none => rfl
+  | some x =>
+    have : x ≠ r := fun h => h2 (by rw [hx, h])
+    simp [hs x this]
+
 end AxVerif.Index
